@@ -43,12 +43,16 @@ def lean_type(t):
     if k in ('list', 'set'): return f'List {atom(lean_type(t[1]))}'
     if k in ('dict', 'ddict'): return f'List ({lean_type(t[1])} × {lean_type(t[2])})'
     if k == 'tuple': return '(' + ' × '.join(lean_type(x) for x in t[1:]) + ')'
+    if k == 'bottom': return 'Unit'
+    if k == 'maybe': return f'Option {atom(lean_type(t[1]))}'        # a local that is unbound on some paths (`none`)
     raise Untranslatable(f'no Lean type for {t}')
 
 JOIN_HOOKS = []       # functions (a, b) -> type | None, for the sums of a translator's domain
 
 def join(a, b, node=None):
     if a == b: return a
+    if a == ('bottom',): return b        # the type of a local before its first assignment
+    if b == ('bottom',): return a
     for h in JOIN_HOOKS:
         r = h(a, b)
         if r is not None: return r
@@ -68,6 +72,7 @@ COERCE_HOOKS = []     # functions (text, frm, to) -> text | None
 
 def coerce(text, frm, to, node=None):
     if frm == to: return text
+    if frm == ('bottom',): return 'default'
     for h in COERCE_HOOKS:
         r = h(text, frm, to)
         if r is not None: return r
@@ -112,11 +117,15 @@ def chars(s):
         elif c == '\t': out.append('\\t')
         elif c == '\r': out.append('\\r')
         elif 0x20 <= o < 0x7f: out.append(c)
-        else: out.append('\\u{%x}' % o)
+        elif o < 0x100: out.append('\\x%02x' % o)
+        elif o < 0x10000: out.append('\\u%04x' % o)
+        else: raise Untranslatable(f'str literal with the code point U+{o:X}')
     return '"' + ''.join(out) + '".toList'
 
+_chars_list_char = chars
+
 def lean_string(s):
-    c = chars(s)
+    c = _chars_list_char(s)
     return '""' if s == '' else c[:-len('.toList')]
 
 class ChkStyle(Style):
@@ -159,6 +168,8 @@ class Normalize(ast.NodeTransformer):
     augmented assignment.  The pseudo-functions `__…__` it introduces are understood by `Fn.call`."""
     def __init__(self, namespaces=(), self_name=None, tag_method='tag', known=None):
         self.known = known              # the flattened paths the translator knows (None: any)
+        self.local_namespaces = set()   # namespace objects created by the function itself (types.SimpleNamespace()) and returned
+        self.returned_namespace = None
         self.namespaces = set(namespaces)       # names whose attribute paths are flattened: ctx.file.header -> ctx_file_header
         self.self_name, self.tag_method = self_name, tag_method
         self.is_generator = False
@@ -264,6 +275,16 @@ class Normalize(ast.NodeTransformer):
             val = ast.copy_location(ast.BinOp(left=cur, op=node.op, right=value), node)
             val.augmented = True
             return _assign(d, _call('__setitem__', [_name(d, ast.Load(), node), key, val], node), node)
+        if isinstance(tgt, ast.Subscript) and isinstance(tgt.value, ast.Subscript) and isinstance(tgt.value.value, ast.Name) and \
+           not isinstance(tgt.slice, ast.Slice) and not isinstance(tgt.value.slice, ast.Slice):
+            # d[k1][k2] op= v   is   d = __setitem__(d, k1, __setitem__(d[k1], k2, d[k1][k2] op v))
+            d = tgt.value.value.id
+            k1, k2 = self.visit(tgt.value.slice), self.visit(tgt.slice)
+            def inner(): return ast.copy_location(ast.Subscript(value=_name(d, ast.Load(), node), slice=_load(k1), ctx=ast.Load()), node)
+            cur = ast.copy_location(ast.Subscript(value=inner(), slice=_load(k2), ctx=ast.Load()), node)
+            val = ast.copy_location(ast.BinOp(left=cur, op=node.op, right=value), node)
+            val.augmented = True
+            return _assign(d, _call('__setitem__', [_name(d, ast.Load(), node), k1, _call('__setitem__', [inner(), k2, val], node)], node), node)
         bad(node, f'augmented assignment to {ast.unparse(node.target)}')
 
     def visit_Assign(self, node):
@@ -281,8 +302,26 @@ class Normalize(ast.NodeTransformer):
                     return _assign(d, _call('__setslice__', [_name(d, ast.Load(), node), lo, hi, node.value], node), node)
                 key = self.visit(tgt.slice)
                 return _assign(d, _call('__setitem__', [_name(d, ast.Load(), node), key, node.value], node), node)
+            if isinstance(tgt, ast.Subscript) and isinstance(tgt.value, ast.Subscript) and isinstance(tgt.value.value, ast.Name) and \
+               not isinstance(tgt.slice, ast.Slice) and not isinstance(tgt.value.slice, ast.Slice):
+                d = tgt.value.value.id
+                k1, k2 = self.visit(tgt.value.slice), self.visit(tgt.slice)
+                inner = ast.copy_location(ast.Subscript(value=_name(d, ast.Load(), node), slice=_load(k1), ctx=ast.Load()), node)
+                return _assign(d, _call('__setitem__', [_name(d, ast.Load(), node), k1, _call('__setitem__', [inner, k2, node.value], node)], node), node)
+            # a local namespace object: `info = types.SimpleNamespace()` is dropped, its attributes are locals
+            if isinstance(tgt, ast.Name) and tgt.id in self.local_namespaces and ast.unparse(node.value) == 'types.SimpleNamespace()':
+                return ast.copy_location(ast.Pass(), node)
         node.targets = [self.visit(t) for t in node.targets]
         return node
+
+    def visit_Return(self, node):
+        if isinstance(node.value, ast.Name) and node.value.id in self.local_namespaces:
+            ns = node.value.id
+            paths = [p for p in self.ns_writes if p.startswith(ns + '_')]
+            tup = ast.copy_location(ast.Tuple(elts=[_name(p, ast.Load(), node) for p in paths], ctx=ast.Load()), node)
+            self.returned_namespace = paths
+            return ast.copy_location(ast.Return(value=tup), node)
+        return self.generic_visit(node)
 
     def visit_Delete(self, node):
         out = []
@@ -485,6 +524,8 @@ class Fn(Stmts):
             ty = env[e.id]
             if ty in (EMPTY, EMPTYD): return '[]', ty
             if ty[0] == '#': bad(e, f'{e.id} used as a value')
+            if ty[0] == 'maybe':       # unbound on some path: reading it there is UnboundLocalError
+                return self.hoist(B, f'PyKit.bound {lname(e.id)}'), ty[1]
             return lname(e.id), ty
         r = self.u.global_name(self, e, env, B)
         if r is not None: return r
@@ -661,6 +702,8 @@ class Fn(Stmts):
         rt, rty = self.expr(R, env, B)
         if op in ('Eq', 'NotEq'):
             sym = '=' if op == 'Eq' else '≠'
+            if (lty == NONE) != (rty == NONE) and NONE in (lty, rty) and (lty if rty == NONE else rty)[0] != 'opt':
+                return ('false' if op == 'Eq' else 'true'), BOOL         # None == <a value that is not None>
             if lty == EMPTY and rty[0] in ('list', 'set'): lty = rty
             if rty == EMPTY and lty[0] in ('list', 'set'): rty = lty
             if lty[0] == 'list' and rty[0] == 'list':
@@ -1074,6 +1117,36 @@ class Fn(Stmts):
         if r is not None: return r
         bad(s, f'statement {type(s).__name__}')
 
+    # ---------------- if (the statement layer's, with one refinement: `break` / `continue` of an INNER loop do not leave the branch)
+    def escapes(self, stmts):
+        def walk(sts, in_loop):
+            for st in sts:
+                if isinstance(st, ast.Return): return True
+                if isinstance(st, (ast.Break, ast.Continue)) and not in_loop: return True
+                inner = in_loop or isinstance(st, (ast.For, ast.While))
+                for fld in ('body', 'orelse', 'finalbody'):
+                    sub = getattr(st, fld, None)
+                    if isinstance(sub, list) and sub and isinstance(sub[0], ast.stmt) and walk(sub, inner if fld == 'body' else in_loop): return True
+                for h in getattr(st, 'handlers', []) or []:
+                    if walk(h.body, in_loop): return True
+            return False
+        return walk(stmts, False)
+
+    def if_(self, s, env, go, live):
+        if contains(s.body + s.orelse, (ast.Break, ast.Continue)) and not self.escapes(s.body + s.orelse) and \
+           not terminates(s.body) and not terminates(s.orelse) and self.none_test(s.test, env) is None:
+            # every break / continue inside belongs to a loop nested in the branch: an ordinary join
+            B = []
+            c = self.cond(s.test, env, B)
+            vars_ = self.join_vars([s.body, s.orelse], env, live)
+            brs = [lambda k: self._seq(s.body, dict(env), k, set(vars_)), lambda k: self._seq(s.orelse, dict(env), k, set(vars_))]
+            trees, types, views = self.run_join(brs, env, vars_, s)
+            env2 = dict(env)
+            for v, t in zip(vars_, types): env2[v] = t
+            env2.update(views)
+            return self.wrap(B, joinc(tuple_pat([self.lvar(v) for v in vars_]), ('if', c, trees[0], trees[1]), tuple_type(types), go(env2)))
+        return super().if_(s, env, go, live)
+
     # ---------------- try / except [/ else]
     def caught_pred(self, t, env):
         if t is None: bad(t, 'bare except')
@@ -1163,7 +1236,23 @@ class Fn(Stmts):
         # a loop target assigned in the body is a plain local of the iteration
         vars_ = self.loop_vars(s, env, live, [t for t in targets if t not in assigned_names(s.body, self.writes_map)])
         vars_ = [v for v in vars_ if v not in targets]
-        types = [env[v] for v in vars_]
+        BOTTOM = ('bottom',)
+        types = [env[v] if v in env else ('maybe', BOTTOM) for v in vars_]
+        def jmaybe(t, u):
+            """join of the loop type t with the type u a variable has at the end of the body (None: unbound there)"""
+            tm = t[0] == 'maybe'; ti = t[1] if tm else t
+            if u is None: um, ui = True, BOTTOM
+            else:
+                um = u[0] == 'maybe'; ui = u[1] if um else u
+            inner = ui if ti == BOTTOM else (ti if ui == BOTTOM else join(ti, ui, s))
+            return ('maybe', inner) if (tm or um) else inner
+        def carry(v, env2, t, node):
+            """the value of v at the end of an iteration (or before the loop), as the loop type t"""
+            if t[0] != 'maybe': return coerce(self.lvar(v), env2[v], t, node)
+            if v not in env2: return 'none'
+            if env2[v][0] == 'maybe' and env2[v][1] == BOTTOM: return 'none'
+            if env2[v][0] == 'maybe': return self.lvar(v)
+            return f'(some {coerce(self.lvar(v), env2[v], t[1], node)})'
         def body_env(types):
             eb = dict(env)
             for v, t in zip(vars_, types): eb[v] = t
@@ -1189,8 +1278,8 @@ class Fn(Stmts):
                 new = list(types)
                 for en in ends:
                     for v in vars_:
-                        if v not in en: bad(s, f'{v} is deleted inside the loop')
-                    new = [join(t, en[v], s) for v, t in zip(vars_, new)]
+                        if v not in en and not self.MAYBE_UNBOUND: bad(s, f'{v} is deleted inside the loop')
+                    new = [jmaybe(t, en.get(v)) for v, t in zip(vars_, new)]
                 if new == types: break
                 types = new
             else:
@@ -1198,7 +1287,7 @@ class Fn(Stmts):
         finally:
             self.quiet -= 1
         def final(env2, kind, node):
-            tup = tuple_pat([coerce(self.lvar(v), env2[v], t, node) for v, t in zip(vars_, types)])
+            tup = tuple_pat([carry(v, env2, t, node) for v, t in zip(vars_, types)])
             if has_brk: return ('raw', f'.ok (.{kind} {atom(tup)})')
             return ('raw', f'.ok {atom(tup)}')
         self.loops.append((vars_, types, final))
@@ -1207,7 +1296,7 @@ class Fn(Stmts):
         finally:
             self.loops.pop()
         pat = tuple_pat([self.lvar(v) for v in vars_])
-        init = tuple_pat([coerce(self.lvar(v), env[v], t, s) for v, t in zip(vars_, types)])
+        init = tuple_pat([carry(v, env, t, s) for v, t in zip(vars_, types)])
         env2 = dict(env)
         for v, t in zip(vars_, types): env2[v] = t
         node = ('foreach', 'PyKit.forEachBrk' if has_brk else 'PyKit.forEach', atom(xs), epat, pat, body, atom(init))
@@ -1216,13 +1305,49 @@ class Fn(Stmts):
     def lvar(self, v):
         return lname(v)
 
+    MAYBE_UNBOUND = False      # carry locals that are bound on some paths only as `Option` (`none` = unbound) instead of leaving them out
+
     def join_vars(self, blocks, env, live):
         """variables assigned in the blocks that the continuation reads.  A name not bound before and not assigned in EVERY block is
-        left out: `live` is flow-insensitive, and if the continuation really read it (UnboundLocalError on some path in Python) the
-        output would mention an unbound identifier and not compile."""
+        left out (`live` is flow-insensitive; if the continuation really read it the output would mention an unbound identifier and not
+        compile) — or, with MAYBE_UNBOUND, carried as an `Option` whose reading is `UnboundLocalError` when `none`."""
         per = [assigned_names(b, self.writes_map) for b in blocks]
         names = set().union(*per) if per else set()
-        return assignment_order(blocks, [n for n in names if n in live and (n in env or all(n in p for p in per))])
+        return assignment_order(blocks, [n for n in names if n in live and (self.MAYBE_UNBOUND or n in env or all(n in p for p in per))])
+
+    def run_join(self, branches, env, vars_, node):
+        if not self.MAYBE_UNBOUND: return super().run_join(branches, env, vars_, node)
+        ends = []
+        def probe(env2):
+            ends.append(env2); return ('raw', '.ok default')
+        saved = self.ntmp
+        for br in branches: br(probe)
+        self.ntmp = saved
+        types = []
+        for v in vars_:
+            ty, missing = None, False
+            for en in ends:
+                if v not in en: missing = True; continue
+                t = en[v]
+                if t[0] == 'maybe': missing, t = True, t[1]
+                ty = t if ty is None else join(ty, t, node)
+            if ty is None:
+                ty = env.get(v, NONE)
+                if ty[0] == 'maybe': missing, ty = True, ty[1]
+            types.append(('maybe', ty) if missing else ty)
+        def final(env2):
+            vals = []
+            for v, t in zip(vars_, types):
+                if t[0] == 'maybe':
+                    if v not in env2: vals.append('none')
+                    elif env2[v][0] == 'maybe' and env2[v][1] == ('bottom',): vals.append('none')
+                    elif env2[v][0] == 'maybe': vals.append(coerce(self.lvar(v), OPT(env2[v][1]), OPT(t[1]), node) if env2[v][1] != t[1] else self.lvar(v))
+                    else: vals.append(f'(some {coerce(self.lvar(v), env2[v], t[1], node)})')
+                else:
+                    vals.append(coerce(self.lvar(v), env2[v], t, node))
+            return ('raw', '.ok ' + tuple_pat(vals))
+        trees = [br(final) for br in branches]
+        return trees, types, {}
 
     def loop_vars(self, s, env, live, targets):
         """the loop-carried variables: assigned in the body and read in a later iteration (before being assigned again) or after the loop"""
@@ -1234,6 +1359,7 @@ class Fn(Stmts):
         vars_ = assignment_order([s.body], [v for v in assigned if v in carried and v not in tnames])
         for v in list(vars_):
             if v not in env:
+                if v in inner and self.MAYBE_UNBOUND: continue        # carried as an Option, `none` before the loop
                 if v in inner: bad(s, f'{v} is assigned in the loop and read in a later iteration but not bound before the loop')
                 # only the (flow-insensitive) `live` set asks for it: a local of one iteration, unless the code after the loop really reads its
                 # last value — then the output mentions an unbound identifier and does not compile (never silently wrong)
@@ -1320,7 +1446,7 @@ class Unit:
 
     # ---- translation of one function
     def translate(self, fnode, params, lean_name, doc, *, namespaces=(), self_name=None, ns_types=None, oracle_types=None, defaults=None,
-                  want_ret=None, skip_first=0, register=True, attrs=''):
+                  want_ret=None, skip_first=0, register=True, attrs='', local_ns=()):
         """params: [(python name, type)] for the parameters of the Python function after the first `skip_first` (self, ctx, …).
         ns_types: flattened namespace path -> type, for the paths the function reads / writes."""
         a = fnode.args
@@ -1330,7 +1456,8 @@ class Unit:
         # normalise a deep copy
         import copy
         f2 = copy.deepcopy(fnode)
-        nz = Normalize(namespaces=namespaces, self_name=self_name, known=(set(ns_types) if ns_types is not None else None))
+        nz = Normalize(namespaces=tuple(namespaces) + tuple(local_ns), self_name=self_name, known=(set(ns_types) if ns_types is not None else None))
+        nz.local_namespaces = set(local_ns)
         body = []
         for st in f2.body:
             r = nz.visit(st)
@@ -1338,7 +1465,7 @@ class Unit:
         f2.body = body
         ns_types = ns_types or {}
         for p in nz.ns_reads + nz.ns_writes:
-            if p not in ns_types: bad(fnode, f'{self.rel}: {fnode.name} uses {p.replace("_", ".", 1)}, which the translator does not know')
+            if p not in ns_types and not any(p.startswith(n + '_') for n in local_ns): bad(fnode, f'{self.rel}: {fnode.name} uses {p.replace("_", ".", 1)}, which the translator does not know')
         outvars = []
         env = {p: t for p, t in params}
         hidden = []
@@ -1347,8 +1474,9 @@ class Unit:
             f2.body.insert(0, _assign(YIELDED, ast.copy_location(ast.List(elts=[], ctx=ast.Load()), fnode), fnode))
             f2.body.append(ast.copy_location(ast.Return(value=_name(YIELDED, ast.Load(), fnode)), f2.body[-1]))
             f2.body[-1].lineno = 10 ** 9
-        written = [p for p in nz.ns_writes]
-        read_first = [p for p in nz.ns_reads if p not in written or p in read_before_write(f2.body)]
+        is_local = lambda p: any(p.startswith(n + '_') for n in local_ns)
+        written = [p for p in nz.ns_writes if not is_local(p)]
+        read_first = [p for p in nz.ns_reads if not is_local(p) and (p not in written or p in read_before_write(f2.body))]
         for p in read_first:
             env[p] = ns_types[p]; hidden.append((p, ns_types[p]))
         if nz.emits:
@@ -1384,6 +1512,7 @@ class Unit:
         text = f'/-- {doc} -/\n{attrs}def {lean_name}{sig} : Except Py.Exc {atom(tuple_type(res_types)) if res_types else "Unit"} :=\n' + '\n'.join(render(tree, 1, STYLE)) + '\n'
         info = FnInfo(fnode.name, lean_name, list(params), ret, list(fn.oracles), defaults)
         info.hidden, info.outvars, info.result_types = hidden, outvars, rts
+        info.returned_namespace = nz.returned_namespace
         if register: self.functions[fnode.name] = info
         self.texts.append(text)
         return info
